@@ -654,4 +654,206 @@ def render : List (Line × Str) → Line → Str
   | [], last => last.text
   | (l, e) :: ls, last => l.text ++ e ++ render ls last
 
+/-! ### the characters of an IPv6 literal -/
+
+theorem mem_splitOn_cover (sep : Char) (s : Str) (c : Char) (hc : c ∈ s) : c = sep ∨ ∃ p ∈ splitOn sep s, c ∈ p := by
+  induction s with
+  | nil => simp at hc
+  | cons x xs ih =>
+    unfold splitOn
+    by_cases hx : x = sep
+    · simp only [hx, if_true]
+      simp only [List.mem_cons] at hc
+      rcases hc with hc | hc
+      · exact Or.inl (hc.trans hx)
+      · rcases ih hc with h | ⟨p, hp, hcp⟩
+        · exact Or.inl h
+        · exact Or.inr ⟨p, by simp [hp], hcp⟩
+    · simp only [hx, if_false]
+      cases hs : splitOn sep xs with
+      | nil => exact absurd hs (splitOn_ne_nil sep xs)
+      | cons p ps =>
+        simp only [List.mem_cons] at hc
+        rcases hc with hc | hc
+        · exact Or.inr ⟨x :: p, by simp, by simp [hc]⟩
+        · rcases ih hc with h | ⟨q, hq, hcq⟩
+          · exact Or.inl h
+          · rw [hs] at hq
+            simp only [List.mem_cons] at hq
+            rcases hq with hq | hq
+            · exact Or.inr ⟨x :: p, by simp, by simp [← hq, hcq]⟩
+            · exact Or.inr ⟨q, by simp [hq], hcq⟩
+
+/-- the characters an IPv6 literal is made of -/
+def v6Char (c : Char) : Bool := isHexDigit c || c == ':' || c == '.'
+
+theorem validHextet_chars (p : Str) (h : validHextet p = true) : ∀ c ∈ p, v6Char c = true := by
+  intro c hc
+  simp only [validHextet, Bool.and_eq_true, List.all_eq_true] at h
+  simp [v6Char, h.1.1 c hc]
+
+theorem isDigit_hex (c : Char) (h : isDigit c = true) : isHexDigit c = true := by simp [isHexDigit, h]
+
+theorem isIPv4_chars (p : Str) (h : isIPv4 p = true) : ∀ c ∈ p, v6Char c = true := by
+  intro c hc
+  simp only [isIPv4, Bool.and_eq_true, List.all_eq_true] at h
+  rcases mem_splitOn_cover '.' p c hc with h1 | ⟨o, ho, hco⟩
+  · simp [v6Char, h1]
+  · have := h.2 o ho
+    simp only [validOctet, Bool.and_eq_true, List.all_eq_true] at this
+    simp [v6Char, isDigit_hex c (this.1.1.1.2 c hco)]
+
+theorem all_take {α} (f : α → Bool) (l : List α) (n : Nat) (h : (l.take n).all f = true) (i : Nat) (hi : i < l.length) (hin : i < n) :
+    f l[i] = true := by
+  rw [List.all_eq_true] at h
+  apply h
+  rw [List.mem_iff_getElem]
+  exact ⟨i, by simp; omega, by simp⟩
+
+theorem all_drop {α} (f : α → Bool) (l : List α) (n : Nat) (h : (l.drop n).all f = true) (i : Nat) (hi : i < l.length) (hin : n ≤ i) :
+    f l[i] = true := by
+  rw [List.all_eq_true] at h
+  apply h
+  rw [List.mem_iff_getElem]
+  exact ⟨i - n, by simp; omega, by simp; congr 1; omega⟩
+
+theorem innerEmpty_mem (parts : List Str) (k : Nat) (h : k ∈ innerEmpty parts) :
+    1 ≤ k ∧ k + 1 < parts.length ∧ parts.getD k [] = [] := by
+  simp only [innerEmpty, List.mem_filter, List.mem_range, Bool.and_eq_true, decide_eq_true_eq, List.isEmpty_iff] at h
+  exact ⟨h.2.1.1, h.2.1.2, h.2.2⟩
+
+theorem parts_ok (parts : List Str) (h : skipCheck parts = true) : ∀ p ∈ parts, p = [] ∨ validHextet p = true := by
+  unfold skipCheck at h
+  split at h
+  · simp at h
+  · next k hk =>
+    have hmem : k ∈ innerEmpty parts := by rw [hk]; simp
+    obtain ⟨hk1, hk2, hk3⟩ := innerEmpty_mem parts k hmem
+    simp only at h
+    intro p hp
+    rw [List.mem_iff_getElem] at hp
+    obtain ⟨i, hi, rfl⟩ := hp
+    have hkk : parts[k]'(by omega) = [] := by
+      have : parts.getD k [] = parts[k]'(by omega) := by simp [List.getD, List.getElem?_eq_getElem (show k < parts.length by omega)]
+      rw [← this]; exact hk3
+    have hhead : parts.headD [] = parts[0]'(by omega) := by
+      cases parts with
+      | nil => simp at hi
+      | cons a r => rfl
+    have hlast : parts.getLastD [] = parts[parts.length - 1]'(by omega) := by
+      cases parts with
+      | nil => simp at hi
+      | cons a r => simp [List.getLastD, List.getLast_eq_getElem]
+    by_cases hH : (parts.headD []).isEmpty = true <;> by_cases hL : (parts.getLastD []).isEmpty = true <;>
+      simp only [hH, hL, if_true, if_false, Bool.true_and, Bool.false_and, Bool.false_eq_true] at h
+    · -- head and last empty
+      split at h
+      · simp at h
+      · next c1 =>
+        split at h
+        · simp at h
+        · next c2 =>
+          have e1 : k - 1 = 0 := by simpa using c1
+          have e2 : parts.length - k - 1 - 1 = 0 := by simpa using c2
+          have h0 : parts[0]'(by omega) = [] := by rw [← hhead]; simpa using hH
+          have hl : parts[parts.length - 1]'(by omega) = [] := by rw [← hlast]; simpa using hL
+          have : i = 0 ∨ i = k ∨ i = parts.length - 1 := by omega
+          rcases this with e | e | e <;> subst e
+          · exact Or.inl h0
+          · exact Or.inl hkk
+          · exact Or.inl hl
+    · -- head empty
+      split at h
+      · simp at h
+      · next c1 =>
+        split at h
+        · simp at h
+        · have e1 : k - 1 = 0 := by simpa using c1
+          have h0 : parts[0]'(by omega) = [] := by rw [← hhead]; simpa using hH
+          rw [Bool.and_eq_true] at h
+          by_cases hi2 : i ≤ k
+          · have : i = 0 ∨ i = k := by omega
+            rcases this with e | e <;> subst e
+            · exact Or.inl h0
+            · exact Or.inl hkk
+          · exact Or.inr (all_drop _ parts _ h.2 i hi (by omega))
+    · -- last empty
+      split at h
+      · simp at h
+      · next c2 =>
+        split at h
+        · simp at h
+        · have e2 : parts.length - k - 1 - 1 = 0 := by simpa using c2
+          have hl : parts[parts.length - 1]'(by omega) = [] := by rw [← hlast]; simpa using hL
+          rw [Bool.and_eq_true] at h
+          by_cases hi2 : i < k
+          · exact Or.inr (all_take _ parts _ h.1 i hi hi2)
+          · have : i = k ∨ i = parts.length - 1 := by omega
+            rcases this with e | e <;> subst e
+            · exact Or.inl hkk
+            · exact Or.inl hl
+    · split at h
+      · simp at h
+      · rw [Bool.and_eq_true] at h
+        by_cases hi2 : i < k
+        · exact Or.inr (all_take _ parts _ h.1 i hi hi2)
+        · by_cases hi3 : i = k
+          · subst hi3; exact Or.inl hkk
+          · exact Or.inr (all_drop _ parts _ h.2 i hi (by omega))
+  · split at h
+    · simp at h
+    · intro p hp
+      rw [List.all_eq_true] at h
+      exact Or.inr (h p hp)
+
+theorem isIPv6Addr_chars (a : Str) (h : isIPv6Addr a = true) : ∀ c ∈ a, v6Char c = true := by
+  unfold isIPv6Addr at h
+  by_cases h0 : a.isEmpty = true
+  · simp [h0] at h
+  · by_cases h1 : (splitOn ':' a).length < 3
+    · simp [h0, h1] at h
+    · simp only [h0, h1, if_false, Bool.false_eq_true] at h
+      by_cases h2 : (!(!((splitOn ':' a).getLastD []).contains '.' || isIPv4 ((splitOn ':' a).getLastD []))) = true
+      · simp only [h2, if_true] at h; simp at h
+      · rw [if_neg h2] at h
+        intro c hc
+        have hcov := mem_splitOn_cover ':' a c hc
+        by_cases hdot : ((splitOn ':' a).getLastD []).contains '.' = true
+        · simp only [hdot, if_true] at h
+          by_cases hlen : ((splitOn ':' a).dropLast ++ [['0'], ['0']]).length > 9
+          · rw [if_pos hlen] at h; simp at h
+          · rw [if_neg hlen] at h
+            have hparts := parts_ok _ h
+            rcases hcov with e | ⟨p, hp, hcp⟩
+            · simp [v6Char, e]
+            · have hne := splitOn_ne_nil ':' a
+              have hsplit : splitOn ':' a = (splitOn ':' a).dropLast ++ [(splitOn ':' a).getLastD []] := by
+                cases hs : splitOn ':' a with
+                | nil => exact absurd hs hne
+                | cons x xs =>
+                  have : (x :: xs).getLastD [] = (x :: xs).getLast (List.cons_ne_nil x xs) := rfl
+                  rw [this, List.dropLast_concat_getLast]
+              rw [hsplit] at hp
+              simp only [List.mem_append, List.mem_singleton] at hp
+              rcases hp with hp | hp
+              · rcases hparts p (by simp [hp]) with e | e
+                · rw [e] at hcp; simp at hcp
+                · exact validHextet_chars p e c hcp
+              · have h4 : isIPv4 ((splitOn ':' a).getLastD []) = true := by
+                  cases h4 : isIPv4 ((splitOn ':' a).getLastD []) with
+                  | true => rfl
+                  | false => exact absurd (by rw [hdot, h4]; rfl) h2
+                rw [hp] at hcp
+                exact isIPv4_chars _ h4 c hcp
+        · simp only [hdot, if_false, Bool.false_eq_true] at h
+          by_cases hlen : (splitOn ':' a).length > 9
+          · rw [if_pos hlen] at h; simp at h
+          · rw [if_neg hlen] at h
+            have hparts := parts_ok _ h
+            rcases hcov with e | ⟨p, hp, hcp⟩
+            · simp [v6Char, e]
+            · rcases hparts p hp with e | e
+              · rw [e] at hcp; simp at hcp
+              · exact validHextet_chars p e c hcp
+
 end SshAudit.Target
